@@ -41,13 +41,19 @@ def extra(ctx):
 
 PROP = {
     "id": "C08",
-    "coq_targets": ["Properties/C08.vo", "Extract/AroExtract.vo", "Extract/PipelineExtract.vo"],
+    "coq_targets": ["Properties/C08.vo", "Extract/AroExtract.vo", "Properties/Pipeline.vo", "Extract/PipelineExtract.vo"],
+    "more_properties_files": ["Properties/Pipeline.v"],
     "extra": extra,
     "properties_file": "Properties/C08.v",
     "theorems": ["C08_ribout_is_export_view_partial", "C08_guard_transparent_ibgp", "C08_guard_transparent_rs_client",
                  "C08_guard_policy_language", "C08_ribout_is_export_view_refuted_rewriting",
                  "C08_ribout_is_export_view_refuted_redistributed", "C08_ribout_is_export_view_refuted_wipe",
-                 "C08_ribout_is_export_view_refuted_sibling"],
+                 "C08_ribout_is_export_view_refuted_sibling",
+                 # end-to-end theorems about the composed RIB pipeline (Properties/Pipeline.v, notes/Pipeline.md)
+                 "Pipeline_locrib_is_union_of_contributions", "Pipeline_ribout_is_export_of_selection",
+                 "Pipeline_peer_view_is_announced", "Pipeline_peer_view_converges",
+                 "Pipeline_session_down_removes_contribution", "Pipeline_noninterference",
+                 "Pipeline_selection_order_independent", "Pipeline_peer_view_converges_refuted_duplicate"],
     "allowed_axioms": [],
     "harness": "c08",
     "modelrun": {"name": "c08", "extracted": ["aro_model"], "driver": aro_props.driver("c08")},
